@@ -64,6 +64,17 @@ def gen_spec(rng, i, backend="direct"):
                 plog_cycle=3, max_down=rng.randint(1, hosts - 1), profile=prof, p=PROFILES[prof])
 
 
+def gen_directed(rng, i):
+    """directed schedule "rotate": quorum+1 successive repairs in a fleet of shard size + 1 (every returning host is the
+    spare that receives the next replacement replica while it still holds the log of its removed one), then a
+    quorum of those hosts crashes together; healing needs restores from hosts whose persisted-log list names two
+    replicas of one shard"""
+    size = rng.choice([3, 3, 3, 5])
+    return dict(id=i, seed=rng.randrange(1, 2 ** 40), backend="direct", hosts=size + 1, nshards=rng.randint(1, 3), size=size,
+                regions=1, fault_rounds=rng.choice([0, 0, 3]), heal_rounds=HEAL_BOUND + QUIET + 2, ticks_round=4, plog_cycle=3,
+                max_down=1, profile="rotate", script="rotate", p=PROFILES["base"])
+
+
 # ------------------------------------------------------------------ parsing
 class Toks:
     def __init__(self, f, i=0):
@@ -598,8 +609,10 @@ def run(ck):
                 w["heal_rounds"] = HEAL_BOUND + QUIET + 2
                 specs.append(w)
     ck.cov["witness_runs"] = len(specs)
+    n_dir = int(os.environ.get("C01_DIRECTED", 10 if quick else 300))
     specs += [gen_spec(ck.rng, i) for i in range(n_direct)]
     specs += [gen_spec(ck.rng, n_direct + i, "nodehost") for i in range(n_nh)]
+    specs += [gen_directed(ck.rng, 2000000 + i) for i in range(n_dir)]
     byid = dict((s["id"], s) for s in specs)
     t0 = time.time()
     files = run_specs(ck, binpath, [s for s in specs if s["backend"] == "direct"], "a")
@@ -646,7 +659,7 @@ def run(ck):
             merge(analyse_file((path, byid, True)), True)
     ck.cov["effects"] = agg
     ck.cov["healed_after_rounds_histogram"] = dict(sorted(heal_hist.items()))
-    ck.cov["runs"] = {"direct": n_direct, "nodehost": n_nh, "witness": ck.cov.get("witness_runs", 0)}
+    ck.cov["runs"] = {"direct": n_direct, "nodehost": n_nh, "witness": ck.cov.get("witness_runs", 0), "directed_rotate": n_dir}
     # ---- model side: re-validate logged traces step by step
     if os.environ.get("C01_SKIP_MODEL") == "1" or ck.violations:
         return
